@@ -270,11 +270,11 @@ package store
 //@ func (d *dir) RepoGet(ctx context.Context, repoStr string) (repo Repo, err error)
 //@   requires [name-safe]{C16} safeRel(repoStr)
 //@   fspath [inside-root]{C16} within(path, d.root)
-//@   assert [repo-dir-inside-root]{C16} before call Cache.Set#1: within(dr.path, d.root)
+//@   assert [repo-dir-inside-root]{C16} before call Cache.Set#1: within(dr#2.path, d.root)
 
 //@ func (m *mem) RepoGet(ctx context.Context, repoStr string) (repo Repo, err error)
 //@   requires [name-safe]{C16} safeRel(repoStr)
-//@   assert [repo-dir-inside-root]{C16} before call memRepo.repoInit#1: within(mr.path, m.conf.Storage.RootDir)
+//@   assert [repo-dir-inside-root]{C16} before call memRepo.repoInit#1: within(mr#2.path, m.conf.Storage.RootDir)
 
 //@ -- no other function of the package touches the file system
 //@ funcs * !dirRepo.* !dirRepoUpload.* !memRepo.* !dir.RepoGet
